@@ -258,6 +258,17 @@ Definition transport_sel_ok (T : list pos) (O : list (pos * nat)) (ps : list spa
   | None => false
   end.
 
+
+(* "ends where the documentation says" for an index-based move on a zone (two_col_zone.rearrange): the recognised transport
+   starts on zone[src_x, src_y] and ends on zone[dst_x, dst_y] *)
+Definition documented_transport (zx zy : list Q) (sx sy dx dy : list nat) (ps : list spath) : bool :=
+  match recognise_transport ps with
+  | Some (nx, ny, w0, ws) =>
+      wp_eqb w0 (pick_coords sx zx, pick_coords sy zy) && wp_eqb (last (w0 :: ws) w0) (pick_coords dx zx, pick_coords dy zy)
+      && (length sx =? nx) && (length sy =? ny) && (length dx =? nx) && (length dy =? ny)
+  | None => false
+  end.
+
 (* rendering *)
 Local Open Scope string_scope.
 Definition show_aerr (e : aerr) : string :=
